@@ -1,7 +1,852 @@
-//! Uni / Multi channel adapters -- filled in later
+//! Uni / Multi channel adapters: every channel kind of the crate behind one object-safe API, driven by
+//! scenario operations under the deterministic scheduler.
+//!
+//! Operations (JSON, field `op`):
+//!   send {v} | send_with {v, y} | send_async {v, susp}            -> {ok, inv}
+//!   reserve | fill {i, v} | send_reserved {i} | cancel_reserved {i}
+//!   create {how} | poll {s, hold} | drive {s, max, hold} | drop_stream {s} | release {h}
+//!   cancel_all | pending | running | is_open | teardown
+//! `susp`: number of times the async setter suspends before it writes the payload; -1 = never resumed.
+
+use crate::sched::Ctx;
 use crate::Sut;
-use serde_json::Value;
-use std::sync::Arc;
-pub fn make(_kind: &str, _scn: &Value) -> Option<Arc<dyn Sut>> {
-    None
+use futures::stream::Stream;
+use reactive_mutiny::prelude::advanced::*;
+use reactive_mutiny::types::{ChannelCommon, ChannelConsumer, ChannelMulti, ChannelProducer, ChannelUni};
+use serde_json::{json, Value};
+use std::collections::HashMap;
+use std::fmt::Debug;
+use std::future::Future;
+use std::pin::Pin;
+use std::sync::atomic::{AtomicBool, AtomicU64, Ordering::SeqCst};
+use std::sync::{Arc, Mutex};
+use std::task::{Context, Poll, RawWaker, RawWakerVTable, Waker};
+
+// ---------------------------------------------------------------------------------------------
+// payloads
+
+/// value -> number of times a payload carrying it was destroyed (0 = created, alive)
+static DROPS: Mutex<Option<HashMap<u64, u32>>> = Mutex::new(None);
+/// things that must never happen, noticed by the instruments (use of a dropped allocator, ...)
+static ANOMALIES: Mutex<Vec<String>> = Mutex::new(Vec::new());
+static NAME_SEQ: AtomicU64 = AtomicU64::new(0);
+
+pub fn reset_instruments() {
+    *DROPS.lock().unwrap() = Some(HashMap::new());
+    ANOMALIES.lock().unwrap().clear();
+}
+
+fn anomaly(s: String) {
+    ANOMALIES.lock().unwrap().push(s);
+}
+
+/// what the instruments saw, as `[[value, drops], ...]` sorted by value
+pub fn drops_snapshot() -> Value {
+    let g = DROPS.lock().unwrap();
+    let mut v: Vec<(u64, u32)> = g.as_ref().map(|m| m.iter().map(|(k, c)| (*k, *c)).collect()).unwrap_or_default();
+    v.sort();
+    json!(v.iter().map(|(k, c)| json!([k, c])).collect::<Vec<_>>())
+}
+
+pub fn anomalies_snapshot() -> Value {
+    json!(ANOMALIES.lock().unwrap().clone())
+}
+
+pub trait Pay: Debug + Send + Sync + Default + 'static {
+    fn mk(v: u64) -> Self;
+    fn v(&self) -> u64;
+    const TRACKED: bool;
+}
+
+impl Pay for u64 {
+    fn mk(v: u64) -> Self {
+        v
+    }
+    fn v(&self) -> u64 {
+        *self
+    }
+    const TRACKED: bool = false;
+}
+
+/// a payload with a destructor that reports to the registry
+#[derive(Debug, Default)]
+pub struct Tracked {
+    v: u64,
+    /// guards against reading a destroyed payload
+    alive: u64,
+}
+
+const ALIVE: u64 = 0xA11CE;
+
+impl Pay for Tracked {
+    fn mk(v: u64) -> Self {
+        if let Some(m) = DROPS.lock().unwrap().as_mut() {
+            m.entry(v).or_insert(0);
+        }
+        Tracked { v, alive: ALIVE }
+    }
+    fn v(&self) -> u64 {
+        if self.alive != ALIVE {
+            anomaly(format!("payload {} read while not alive (marker {:#x})", self.v, self.alive));
+        }
+        self.v
+    }
+    const TRACKED: bool = true;
+}
+
+impl Drop for Tracked {
+    fn drop(&mut self) {
+        if self.alive == ALIVE {
+            if let Some(m) = DROPS.lock().unwrap().as_mut() {
+                *m.entry(self.v).or_insert(0) += 1;
+            }
+            self.alive = 0xDEAD;
+        } else if self.alive == 0xDEAD {
+            if let Some(m) = DROPS.lock().unwrap().as_mut() {
+                *m.entry(self.v).or_insert(0) += 1;
+            }
+        }
+        // anything else: never-initialised bytes (a cancelled reservation, a Default instance) -- nothing to account for
+    }
+}
+
+// ---------------------------------------------------------------------------------------------
+// an allocator wrapper that notices being used after it was dropped
+
+pub struct WatchAlloc<P: Pay, A: BoundedOgreAllocator<P>> {
+    inner: std::mem::ManuallyDrop<A>,
+    dropped: AtomicBool,
+    _p: std::marker::PhantomData<P>,
+}
+
+impl<P: Pay, A: BoundedOgreAllocator<P>> Debug for WatchAlloc<P, A> {
+    fn fmt(&self, f: &mut std::fmt::Formatter<'_>) -> std::fmt::Result {
+        write!(f, "WatchAlloc")
+    }
+}
+impl<P: Pay, A: BoundedOgreAllocator<P>> PartialEq for WatchAlloc<P, A> {
+    fn eq(&self, other: &Self) -> bool {
+        std::ptr::eq(self, other)
+    }
+}
+impl<P: Pay, A: BoundedOgreAllocator<P>> Drop for WatchAlloc<P, A> {
+    fn drop(&mut self) {
+        // the inner allocator is leaked on purpose: a later (illegal) use is then observable without undefined behaviour
+        self.dropped.store(true, SeqCst);
+    }
+}
+impl<P: Pay, A: BoundedOgreAllocator<P>> WatchAlloc<P, A> {
+    fn check(&self, what: &str) -> bool {
+        if self.dropped.load(SeqCst) {
+            anomaly(format!("allocator used after it was dropped: {what}"));
+            false
+        } else {
+            true
+        }
+    }
+}
+impl<P: Pay, A: BoundedOgreAllocator<P>> BoundedOgreAllocator<P> for WatchAlloc<P, A> {
+    type OwnedSlotType = A::OwnedSlotType;
+    fn new() -> Self {
+        Self { inner: std::mem::ManuallyDrop::new(A::new()), dropped: AtomicBool::new(false), _p: std::marker::PhantomData }
+    }
+    fn alloc_ref(&self) -> Option<(&mut P, u32)> {
+        self.check("alloc_ref");
+        self.inner.alloc_ref()
+    }
+    fn alloc_with(&self, setter: impl FnOnce(&mut P)) -> Option<(&mut P, u32)> {
+        self.check("alloc_with");
+        self.inner.alloc_with(setter)
+    }
+    async fn alloc_with_async<'r, Fut: Future<Output = (&'r mut P, u32)>>(&'r self, setter: impl FnOnce(&'r mut P, u32) -> Fut) -> Option<(&'r mut P, u32)>
+    where
+        P: 'r,
+    {
+        self.inner.alloc_with_async(setter).await
+    }
+    fn dealloc_ref(&self, slot: &P) {
+        if self.check("dealloc_ref") {
+            self.inner.dealloc_ref(slot)
+        }
+    }
+    fn dealloc_id(&self, slot_id: u32) {
+        if self.check("dealloc_id") {
+            self.inner.dealloc_id(slot_id)
+        }
+    }
+    fn id_from_ref(&self, slot: &P) -> u32 {
+        self.inner.id_from_ref(slot)
+    }
+    fn ref_from_id(&self, slot_id: u32) -> &mut P {
+        self.inner.ref_from_id(slot_id)
+    }
+}
+
+// ---------------------------------------------------------------------------------------------
+// delivered items
+
+pub trait Held: Send {
+    fn val(&self) -> u64;
+    /// address of the payload (0 when the payload is moved around)
+    fn addr(&self) -> usize;
+}
+
+macro_rules! held_for_payload {
+    ($t: ty) => {
+        impl Held for $t {
+            fn val(&self) -> u64 {
+                Pay::v(self)
+            }
+            fn addr(&self) -> usize {
+                0
+            }
+        }
+    };
+}
+held_for_payload!(u64);
+held_for_payload!(Tracked);
+
+impl<P: Pay> Held for Arc<P> {
+    fn val(&self) -> u64 {
+        (**self).v()
+    }
+    fn addr(&self) -> usize {
+        Arc::as_ptr(self) as usize
+    }
+}
+impl<P: Pay> Held for &'static P {
+    fn val(&self) -> u64 {
+        (**self).v()
+    }
+    fn addr(&self) -> usize {
+        *self as *const P as usize
+    }
+}
+impl<P: Pay, A: BoundedOgreAllocator<P> + Send + Sync + 'static> Held for OgreUnique<P, A> {
+    fn val(&self) -> u64 {
+        (**self).v()
+    }
+    fn addr(&self) -> usize {
+        &**self as *const P as usize
+    }
+}
+impl<P: Pay, A: BoundedOgreAllocator<P> + Send + Sync + 'static> Held for OgreArc<P, A> {
+    fn val(&self) -> u64 {
+        (**self).v()
+    }
+    fn addr(&self) -> usize {
+        &**self as *const P as usize
+    }
+}
+
+pub enum Polled {
+    Item(Box<dyn Held>),
+    Pending,
+    End,
+}
+
+pub trait StreamApi: Send {
+    fn poll(&mut self, waker: &Waker) -> Polled;
+    fn id(&self) -> u32;
+}
+
+struct BoxedStream<D: Held + 'static> {
+    s: Pin<Box<dyn Stream<Item = D> + Send>>,
+    id: u32,
+}
+
+impl<D: Held + 'static> StreamApi for BoxedStream<D> {
+    fn poll(&mut self, waker: &Waker) -> Polled {
+        let mut cx = Context::from_waker(waker);
+        match self.s.as_mut().poll_next(&mut cx) {
+            Poll::Ready(Some(d)) => Polled::Item(Box::new(d)),
+            Poll::Ready(None) => Polled::End,
+            Poll::Pending => Polled::Pending,
+        }
+    }
+    fn id(&self) -> u32 {
+        self.id
+    }
+}
+
+// ---------------------------------------------------------------------------------------------
+// the channel API, object safe
+
+pub trait ChanApi: Send + Sync {
+    fn send(&self, v: u64) -> bool;
+    fn send_with(&self, ctx: &Ctx, v: u64, yield_inside: bool) -> (bool, bool);
+    fn send_async(&self, ctx: &Ctx, v: u64, susp: i64) -> (bool, bool, bool);
+    fn reserve(&self) -> Option<usize>;
+    fn fill(&self, ptr: usize, v: u64);
+    fn send_reserved(&self, ptr: usize) -> bool;
+    fn cancel_reserved(&self, ptr: usize) -> bool;
+    fn create(&self, how: &str) -> Vec<Box<dyn StreamApi>>;
+    fn cancel_all(&self);
+    fn pending(&self) -> u32;
+    fn running(&self) -> u32;
+    fn is_open(&self) -> bool;
+    fn consume_direct(&self, stream_id: u32) -> Option<Box<dyn Held>>;
+    fn strong_count(&self) -> usize;
+}
+
+pub trait Creator<C, D: Held + 'static>: Send + Sync + 'static {
+    fn create(c: &Arc<C>, how: &str) -> Vec<Box<dyn StreamApi>>;
+}
+
+pub struct UniK;
+pub struct MultiK;
+
+impl<P: Pay, D: Held + Debug + Send + Sync + 'static, C> Creator<C, D> for UniK
+where
+    C: FullDuplexUniChannel<ItemType = P, DerivedItemType = D> + Send + Sync + 'static,
+{
+    fn create(c: &Arc<C>, _how: &str) -> Vec<Box<dyn StreamApi>> {
+        let (s, id) = c.create_stream();
+        vec![Box::new(BoxedStream::<D> { s: Box::pin(s), id })]
+    }
+}
+
+impl<P: Pay, D: Held + Debug + Send + Sync + 'static, C> Creator<C, D> for MultiK
+where
+    C: FullDuplexMultiChannel<ItemType = P, DerivedItemType = D> + Send + Sync + 'static,
+{
+    fn create(c: &Arc<C>, how: &str) -> Vec<Box<dyn StreamApi>> {
+        match how {
+            "old" => {
+                let (s, id) = c.create_stream_for_old_events();
+                vec![Box::new(BoxedStream::<D> { s: Box::pin(s), id })]
+            }
+            "joined" => {
+                let (s, id) = c.create_stream_for_old_and_new_events();
+                vec![Box::new(BoxedStream::<D> { s: Box::pin(s), id })]
+            }
+            "split" => {
+                let ((so, ido), (sn, idn)) = c.create_streams_for_old_and_new_events();
+                vec![Box::new(BoxedStream::<D> { s: Box::pin(so), id: ido }), Box::new(BoxedStream::<D> { s: Box::pin(sn), id: idn })]
+            }
+            _ => {
+                let (s, id) = c.create_stream_for_new_events();
+                vec![Box::new(BoxedStream::<D> { s: Box::pin(s), id })]
+            }
+        }
+    }
+}
+
+pub struct Chan<C, P, D, K> {
+    c: Arc<C>,
+    _p: std::marker::PhantomData<(P, D, K)>,
+}
+
+unsafe impl<C: Send + Sync, P, D, K> Send for Chan<C, P, D, K> {}
+unsafe impl<C: Send + Sync, P, D, K> Sync for Chan<C, P, D, K> {}
+
+/// a future that answers Pending `n` times
+struct Suspend(i64);
+impl Future for Suspend {
+    type Output = ();
+    fn poll(mut self: Pin<&mut Self>, _cx: &mut Context<'_>) -> Poll<()> {
+        if self.0 == 0 {
+            Poll::Ready(())
+        } else {
+            if self.0 > 0 {
+                self.0 -= 1;
+            }
+            Poll::Pending
+        }
+    }
+}
+
+fn noop_waker() -> Waker {
+    fn clone(_: *const ()) -> RawWaker {
+        RawWaker::new(std::ptr::null(), &VT)
+    }
+    fn noop(_: *const ()) {}
+    static VT: RawWakerVTable = RawWakerVTable::new(clone, noop, noop, noop);
+    unsafe { Waker::from_raw(RawWaker::new(std::ptr::null(), &VT)) }
+}
+
+fn is_ok<I>(r: &keen_retry::RetryConsumerResult<(), I, ()>) -> bool {
+    matches!(r, keen_retry::RetryResult::Ok { .. })
+}
+
+impl<C, P, D, K> ChanApi for Chan<C, P, D, K>
+where
+    P: Pay,
+    D: Held + Debug + Send + Sync + 'static,
+    C: ChannelCommon<P, D> + ChannelProducer<'static, P, D> + ChannelConsumer<'static, D> + Send + Sync + 'static,
+    K: Creator<C, D>,
+{
+    fn send(&self, v: u64) -> bool {
+        let item = P::mk(v);
+        let r = self.c.send(item);
+        let ok = is_ok(&r);
+        if !ok {
+            // the rejected payload is handed back: it must be the one we gave
+            if let keen_retry::RetryResult::Transient { input, .. } = &r {
+                if input.v() != v {
+                    anomaly(format!("rejected send handed back {} instead of {}", input.v(), v));
+                }
+            }
+        }
+        ok
+    }
+
+    fn send_with(&self, ctx: &Ctx, v: u64, yield_inside: bool) -> (bool, bool) {
+        let invoked = std::cell::Cell::new(false);
+        let r = self.c.send_with(|slot: &mut P| {
+            invoked.set(true);
+            if yield_inside {
+                ctx.yield_now("setter");
+            }
+            unsafe { std::ptr::write(slot, P::mk(v)) };
+        });
+        let ok = is_ok(&r);
+        (ok, invoked.get())
+    }
+
+    fn send_async(&self, ctx: &Ctx, v: u64, susp: i64) -> (bool, bool, bool) {
+        let c: &'static C = unsafe { &*(Arc::as_ptr(&self.c)) };
+        let invoked = Arc::new(AtomicBool::new(false));
+        let inv2 = Arc::clone(&invoked);
+        let fut = c.send_with_async(move |slot: &'static mut P| {
+            inv2.store(true, SeqCst);
+            async move {
+                Suspend(susp).await;
+                unsafe { std::ptr::write(slot as *mut P, P::mk(v)) };
+                slot
+            }
+        });
+        let mut fut = Box::pin(fut);
+        let w = noop_waker();
+        let mut cx = Context::from_waker(&w);
+        loop {
+            match fut.as_mut().poll(&mut cx) {
+                Poll::Ready(r) => return (is_ok(&r), invoked.load(SeqCst), true),
+                Poll::Pending => {
+                    if susp < 0 {
+                        ctx.note("suspended", json!({"v": v}));
+                        let _ = ctx.freeze();
+                        // the run is over: the future is abandoned as it is (never dropped: its destructor could touch a torn-down channel)
+                        std::mem::forget(fut);
+                        return (false, invoked.load(SeqCst), false);
+                    }
+                    ctx.yield_now("async-suspended");
+                }
+            }
+        }
+    }
+
+    fn reserve(&self) -> Option<usize> {
+        self.c.reserve_slot().map(|r| r as *mut P as usize)
+    }
+    fn fill(&self, ptr: usize, v: u64) {
+        unsafe { std::ptr::write(ptr as *mut P, P::mk(v)) };
+    }
+    fn send_reserved(&self, ptr: usize) -> bool {
+        self.c.try_send_reserved(unsafe { &mut *(ptr as *mut P) })
+    }
+    fn cancel_reserved(&self, ptr: usize) -> bool {
+        self.c.try_cancel_slot_reserve(unsafe { &mut *(ptr as *mut P) })
+    }
+    fn create(&self, how: &str) -> Vec<Box<dyn StreamApi>> {
+        K::create(&self.c, how)
+    }
+    fn cancel_all(&self) {
+        self.c.cancel_all_streams()
+    }
+    fn pending(&self) -> u32 {
+        self.c.pending_items_count()
+    }
+    fn running(&self) -> u32 {
+        self.c.running_streams_count()
+    }
+    fn is_open(&self) -> bool {
+        self.c.is_channel_open()
+    }
+    fn consume_direct(&self, stream_id: u32) -> Option<Box<dyn Held>> {
+        self.c.consume(stream_id).map(|d| Box::new(d) as Box<dyn Held>)
+    }
+    fn strong_count(&self) -> usize {
+        Arc::strong_count(&self.c)
+    }
+}
+
+fn mk_chan<C, P, D, K>(name: &str) -> Box<dyn ChanApi>
+where
+    P: Pay,
+    D: Held + Debug + Send + Sync + 'static,
+    C: ChannelCommon<P, D> + ChannelProducer<'static, P, D> + ChannelConsumer<'static, D> + Send + Sync + 'static,
+    K: Creator<C, D>,
+{
+    Box::new(Chan::<C, P, D, K> { c: C::new(name), _p: std::marker::PhantomData })
+}
+
+type WA<P, const N: usize> = WatchAlloc<P, AllocatorAtomicArray<P, N>>;
+type WF<P, const N: usize> = WatchAlloc<P, AllocatorFullSyncArray<P, N>>;
+type UniZcAtomic<P, const N: usize, const S: usize> = reactive_mutiny::uni::channels::zero_copy::atomic::Atomic<'static, P, WA<P, N>, N, S>;
+type UniZcFullSync<P, const N: usize, const S: usize> = reactive_mutiny::uni::channels::zero_copy::full_sync::FullSync<'static, P, WF<P, N>, N, S>;
+type MultiOgreAtomic<P, const N: usize, const S: usize> = reactive_mutiny::multi::channels::ogre_arc::atomic::Atomic<'static, P, WA<P, N>, N, S>;
+type MultiOgreFullSync<P, const N: usize, const S: usize> = reactive_mutiny::multi::channels::ogre_arc::full_sync::FullSync<'static, P, WF<P, N>, N, S>;
+
+fn mk_kind<P: Pay + Held, const N: usize, const S: usize>(kind: &str, name: &str) -> Option<Box<dyn ChanApi>> {
+    Some(match kind {
+        "uni_move_atomic" => mk_chan::<ChannelUniMoveAtomic<P, N, S>, P, P, UniK>(name),
+        "uni_move_fullsync" => mk_chan::<ChannelUniMoveFullSync<P, N, S>, P, P, UniK>(name),
+        "uni_move_crossbeam" => mk_chan::<ChannelUniMoveCrossbeam<P, N, S>, P, P, UniK>(name),
+        "uni_zc_atomic" => mk_chan::<UniZcAtomic<P, N, S>, P, OgreUnique<P, WA<P, N>>, UniK>(name),
+        "uni_zc_fullsync" => mk_chan::<UniZcFullSync<P, N, S>, P, OgreUnique<P, WF<P, N>>, UniK>(name),
+        "multi_arc_atomic" => mk_chan::<ChannelMultiArcAtomic<P, N, S>, P, Arc<P>, MultiK>(name),
+        "multi_arc_fullsync" => mk_chan::<ChannelMultiArcFullSync<P, N, S>, P, Arc<P>, MultiK>(name),
+        "multi_arc_crossbeam" => mk_chan::<ChannelMultiArcCrossbeam<P, N, S>, P, Arc<P>, MultiK>(name),
+        "multi_ogre_atomic" => mk_chan::<MultiOgreAtomic<P, N, S>, P, OgreArc<P, WA<P, N>>, MultiK>(name),
+        "multi_ogre_fullsync" => mk_chan::<MultiOgreFullSync<P, N, S>, P, OgreArc<P, WF<P, N>>, MultiK>(name),
+        _ => return None,
+    })
+}
+
+fn mk_mmap<P: Pay + Held, const S: usize>(name: &str) -> Box<dyn ChanApi> {
+    mk_chan::<ChannelMultiMmapLog<P, S>, P, &'static P, MultiK>(name)
+}
+
+fn mk_by_size<P: Pay + Held>(kind: &str, n: u64, s: u64, name: &str) -> Option<Box<dyn ChanApi>> {
+    if kind == "multi_mmap" {
+        return Some(match s {
+            1 => mk_mmap::<P, 1>(name),
+            2 => mk_mmap::<P, 2>(name),
+            4 => mk_mmap::<P, 4>(name),
+            _ => return None,
+        });
+    }
+    match (n, s) {
+        (2, 1) => mk_kind::<P, 2, 1>(kind, name),
+        (2, 2) => mk_kind::<P, 2, 2>(kind, name),
+        (4, 1) => mk_kind::<P, 4, 1>(kind, name),
+        (4, 2) => mk_kind::<P, 4, 2>(kind, name),
+        (4, 4) => mk_kind::<P, 4, 4>(kind, name),
+        (8, 2) => mk_kind::<P, 8, 2>(kind, name),
+        (8, 4) => mk_kind::<P, 8, 4>(kind, name),
+        _ => None,
+    }
+}
+
+// ---------------------------------------------------------------------------------------------
+// the SUT
+
+pub struct ChanSut {
+    api: Mutex<Option<Box<dyn ChanApi>>>,
+    api_ref: &'static dyn ChanApi,
+    streams: Mutex<Vec<Option<Box<dyn StreamApi>>>>,
+    stream_ids: Mutex<Vec<u32>>,
+    held: Mutex<Vec<Option<Box<dyn Held>>>>,
+    reserved: Mutex<Vec<Vec<(usize, u64)>>>,
+    frozen: AtomicBool,
+    mmap_file: Option<String>,
+    multi: bool,
+    tracked: bool,
+    drain: bool,
+}
+
+pub fn make(kind: &str, scn: &Value) -> Option<Arc<dyn Sut>> {
+    if !(kind.starts_with("uni_") || kind.starts_with("multi_")) {
+        return None;
+    }
+    let n = scn["n"].as_u64().unwrap_or(2);
+    let s = scn["s"].as_u64().unwrap_or(1);
+    let tracked = scn["payload"].as_str().unwrap_or("tracked") == "tracked";
+    reset_instruments();
+    let name = format!("rmverif-{}-{}", std::process::id(), NAME_SEQ.fetch_add(1, SeqCst));
+    let api = if tracked { mk_by_size::<Tracked>(kind, n, s, &name) } else { mk_by_size::<u64>(kind, n, s, &name) }?;
+    let api_ref: &'static dyn ChanApi = unsafe { &*(api.as_ref() as *const dyn ChanApi) };
+    let sut = ChanSut {
+        api: Mutex::new(Some(api)),
+        api_ref,
+        streams: Mutex::new(vec![]),
+        stream_ids: Mutex::new(vec![]),
+        held: Mutex::new(vec![]),
+        reserved: Mutex::new(vec![vec![]; 16]),
+        frozen: AtomicBool::new(false),
+        mmap_file: if kind == "multi_mmap" { Some(format!("/tmp/{name}.mmap")) } else { None },
+        multi: kind.starts_with("multi_"),
+        tracked,
+        drain: scn["drain"].as_bool().unwrap_or(true),
+    };
+    // streams created before any thread runs (hooks inactive)
+    for how in scn["pre_streams"].as_array().cloned().unwrap_or_default() {
+        sut.create(how.as_str().unwrap_or("new"));
+    }
+    Some(Arc::new(sut))
+}
+
+impl ChanSut {
+    fn api(&self) -> &'static dyn ChanApi {
+        self.api_ref
+    }
+
+    fn create(&self, how: &str) -> Vec<(usize, u32)> {
+        let new = self.api().create(how);
+        let mut st = self.streams.lock().unwrap();
+        let mut ids = self.stream_ids.lock().unwrap();
+        let mut out = vec![];
+        for s in new {
+            let id = s.id();
+            st.push(Some(s));
+            ids.push(id);
+            out.push((st.len() - 1, id));
+        }
+        out
+    }
+
+    fn take_stream(&self, s: usize) -> Option<Box<dyn StreamApi>> {
+        self.streams.lock().unwrap().get_mut(s).and_then(|x| x.take())
+    }
+    fn put_stream(&self, s: usize, st: Box<dyn StreamApi>) {
+        self.streams.lock().unwrap()[s] = Some(st);
+    }
+
+    fn hold(&self, item: Box<dyn Held>) -> usize {
+        let mut h = self.held.lock().unwrap();
+        h.push(Some(item));
+        h.len() - 1
+    }
+
+    fn poll_once(&self, ctx: &Ctx, s: usize, hold: bool) -> Value {
+        let Some(mut st) = self.take_stream(s) else {
+            return json!({"r": "nostream", "s": s, "v": 0, "h": -1, "addr": 0});
+        };
+        let w = ctx.waker();
+        let r = st.poll(&w);
+        self.put_stream(s, st);
+        match r {
+            Polled::Item(item) => {
+                let v = item.val();
+                let addr = item.addr();
+                let h = if hold { self.hold(item) as i64 } else { -1 };
+                json!({"r": "item", "s": s, "v": v, "h": h, "addr": addr % (1 << 30)})
+            }
+            Polled::Pending => json!({"r": "pending", "s": s, "v": 0, "h": -1, "addr": 0}),
+            Polled::End => json!({"r": "end", "s": s, "v": 0, "h": -1, "addr": 0}),
+        }
+    }
+}
+
+impl Sut for ChanSut {
+    fn resolve(&self, t: usize, op: &Value) -> Value {
+        let name = op["op"].as_str().unwrap_or("");
+        let r = self.reserved.lock().unwrap();
+        let mine = &r[t];
+        let nop = json!({"op": "nop", "v": 0, "i": 0});
+        match name {
+            "fill_last" => if mine.is_empty() { nop } else { json!({"op": "fill", "i": mine.len() - 1, "v": op["v"]}) },
+            "send_reserved_first" => if mine.is_empty() { nop } else { json!({"op": "send_reserved", "i": 0, "v": mine[0].1, "tries": op["tries"].as_u64().unwrap_or(12)}) },
+            "send_reserved_last" => if mine.is_empty() { nop } else { json!({"op": "send_reserved", "i": mine.len() - 1, "v": mine[mine.len() - 1].1, "tries": op["tries"].as_u64().unwrap_or(12)}) },
+            "cancel_reserved_last" => if mine.is_empty() { nop } else { json!({"op": "cancel_reserved", "i": mine.len() - 1, "v": mine[mine.len() - 1].1, "tries": op["tries"].as_u64().unwrap_or(12)}) },
+            "send_with_if_clear" => if mine.is_empty() { json!({"op": "send_with", "v": op["v"], "y": op["y"].as_bool().unwrap_or(false), "i": 0}) } else { nop },
+            "send_reserved" | "cancel_reserved" => {
+                let i = op["i"].as_u64().unwrap_or(0) as usize;
+                match mine.get(i) {
+                    Some(x) => json!({"op": name, "i": i, "v": x.1}),
+                    None => nop,
+                }
+            }
+            "send_if_clear" => if mine.is_empty() { json!({"op": "send", "v": op["v"], "i": 0}) } else { nop },
+            _ => op.clone(),
+        }
+    }
+
+    fn exec(&self, ctx: &Ctx, op: &Value) -> Value {
+        let api = self.api();
+        let name = op["op"].as_str().unwrap();
+        match name {
+            "nop" => json!({"ok": true, "v": 0}),
+            "send" => json!({"ok": api.send(op["v"].as_u64().unwrap()), "inv": false, "v": 0}),
+            "send_with" => {
+                let (ok, inv) = api.send_with(ctx, op["v"].as_u64().unwrap(), op["y"].as_bool().unwrap_or(false));
+                json!({"ok": ok, "inv": inv, "v": 0})
+            }
+            "send_async" => {
+                let susp = op["susp"].as_i64().unwrap_or(0);
+                if susp < 0 {
+                    self.frozen.store(true, SeqCst);
+                }
+                let (ok, inv, done) = api.send_async(ctx, op["v"].as_u64().unwrap(), susp);
+                json!({"ok": ok, "inv": inv, "done": done, "v": 0})
+            }
+            "reserve" => match api.reserve() {
+                Some(ptr) => {
+                    self.reserved.lock().unwrap()[ctx.t].push((ptr, 0));
+                    json!({"ok": true, "v": 0})
+                }
+                None => json!({"ok": false, "v": 0}),
+            },
+            "fill" => {
+                let i = op["i"].as_u64().unwrap() as usize;
+                let v = op["v"].as_u64().unwrap();
+                let ptr = {
+                    let mut r = self.reserved.lock().unwrap();
+                    r[ctx.t][i].1 = v;
+                    r[ctx.t][i].0
+                };
+                api.fill(ptr, v);
+                json!({"ok": true, "v": 0})
+            }
+            "send_reserved" | "cancel_reserved" => {
+                let i = op["i"].as_u64().unwrap() as usize;
+                let ptr = self.reserved.lock().unwrap()[ctx.t][i].0;
+                // "once that call answers true": the documented use is to retry (bounded here)
+                let mut tries = op["tries"].as_u64().unwrap_or(12);
+                let ok = loop {
+                    let ok = if name == "send_reserved" { api.send_reserved(ptr) } else { api.cancel_reserved(ptr) };
+                    tries -= 1;
+                    if ok || tries == 0 {
+                        break ok;
+                    }
+                    ctx.yield_now("retry-reserved");
+                };
+                if ok {
+                    self.reserved.lock().unwrap()[ctx.t].remove(i);
+                }
+                json!({"ok": ok, "v": 0})
+            }
+            "create" => {
+                let made = self.create(op["how"].as_str().unwrap_or("new"));
+                json!({"ok": true, "v": 0, "s": made.iter().map(|x| x.0).collect::<Vec<_>>(), "ids": made.iter().map(|x| x.1).collect::<Vec<_>>()})
+            }
+            "poll" => self.poll_once(ctx, op["s"].as_u64().unwrap() as usize, op["hold"].as_bool().unwrap_or(false)),
+            "drive" => {
+                // an executor task: poll; on Pending park until woken; stop at end-of-stream (or after `max` items)
+                let s = op["s"].as_u64().unwrap() as usize;
+                let max = op["max"].as_u64().unwrap_or(u64::MAX);
+                let hold = op["hold"].as_bool().unwrap_or(false);
+                let mut got = 0u64;
+                let mut last = "max";
+                while got < max {
+                    ctx.clear_notified();
+                    ctx.call("poll", json!({"op": "poll", "s": s, "v": 0, "i": 0}));
+                    let r = self.poll_once(ctx, s, hold);
+                    let kind = r["r"].as_str().unwrap().to_string();
+                    ctx.ret("poll", r);
+                    match kind.as_str() {
+                        "item" => got += 1,
+                        "pending" => {
+                            ctx.note("park", json!({"s": s}));
+                            if ctx.park().is_err() {
+                                last = "parked";
+                                break;
+                            }
+                            ctx.note("unpark", json!({"s": s}));
+                        }
+                        _ => {
+                            last = "end";
+                            break;
+                        }
+                    }
+                }
+                json!({"ok": true, "v": got, "s": s, "last": last})
+            }
+            "drop_stream" => {
+                let s = op["s"].as_u64().unwrap() as usize;
+                let st = self.take_stream(s);
+                let had = st.is_some();
+                drop(st);
+                json!({"ok": had, "v": 0, "s": s})
+            }
+            "release" => {
+                let h = op["h"].as_u64().unwrap() as usize;
+                let item = self.held.lock().unwrap().get_mut(h).and_then(|x| x.take());
+                let had = item.is_some();
+                drop(item);
+                json!({"ok": had, "v": 0})
+            }
+            "release_all" => {
+                let items: Vec<_> = self.held.lock().unwrap().iter_mut().filter_map(|x| x.take()).collect();
+                let k = items.len();
+                drop(items);
+                json!({"ok": true, "v": k})
+            }
+            "cancel_all" => {
+                api.cancel_all();
+                json!({"ok": true, "v": 0})
+            }
+            "pending" => json!({"ok": true, "v": api.pending()}),
+            "running" => json!({"ok": true, "v": api.running()}),
+            "is_open" => json!({"ok": api.is_open(), "v": 0}),
+            other => panic!("channel: unknown op {other}"),
+        }
+    }
+
+    fn finish(&self, not_complete: bool) -> Value {
+        let api = self.api();
+        let frozen = self.frozen.load(SeqCst);
+        let pending = api.pending();
+        let running = api.running();
+        let open = api.is_open();
+        let ids = self.stream_ids.lock().unwrap().clone();
+        let live: Vec<usize> = self.streams.lock().unwrap().iter().enumerate().filter(|(_, s)| s.is_some()).map(|(i, _)| i).collect();
+        // what is still buffered, per stream (Uni: one queue, seen through the first live stream)
+        let mut left: Vec<Value> = vec![];
+        if !frozen && self.drain {
+            let mut budget = 64;
+            if self.multi {
+                for &i in live.iter() {
+                    let mut vs = vec![];
+                    while budget > 0 {
+                        budget -= 1;
+                        match api.consume_direct(ids[i]) {
+                            Some(item) => vs.push(item.val()),
+                            None => break,
+                        }
+                    }
+                    left.push(json!({"s": i, "vs": vs}));
+                }
+            } else {
+                let mut vs = vec![];
+                while budget > 0 {
+                    budget -= 1;
+                    match api.consume_direct(ids.first().copied().unwrap_or(0)) {
+                        Some(item) => vs.push(item.val()),
+                        None => break,
+                    }
+                }
+                left.push(json!({"s": 0, "vs": vs}));
+            }
+        }
+        // capacity probe: with everything consumed and released, exactly BUFFER_SIZE sends must be accepted
+        let held_now = self.held.lock().unwrap().iter().filter(|x| x.is_some()).count();
+        let reserved_now: usize = self.reserved.lock().unwrap().iter().map(|v| v.len()).sum();
+        json!({"hard": false, "not_complete": not_complete, "frozen": frozen, "pending": pending, "running": running, "open": open,
+               "live": live, "left": left, "held": held_now, "reserved": reserved_now, "drained": !frozen && self.drain})
+    }
+
+    fn after_finish(&self, obs: &mut Value, hard: bool) {
+        // tear the channel down: streams first, then whatever handles are still held, then the channel itself
+        let frozen = self.frozen.load(SeqCst);
+        let before = drops_snapshot();
+        if hard || frozen {
+            // somebody is stuck (or suspended for ever) inside the channel: nothing can be destroyed safely
+            let api = self.api.lock().unwrap().take();
+            std::mem::forget(api);
+            let st: Vec<_> = self.streams.lock().unwrap().drain(..).collect();
+            std::mem::forget(st);
+            let h: Vec<_> = self.held.lock().unwrap().drain(..).collect();
+            std::mem::forget(h);
+        } else {
+            // handles must not outlive their channel (stated assumption of C05): release them first
+            let h: Vec<_> = self.held.lock().unwrap().drain(..).collect();
+            drop(h);
+            let st: Vec<_> = self.streams.lock().unwrap().drain(..).collect();
+            drop(st);
+            let api = self.api.lock().unwrap().take();
+            drop(api);
+        }
+        if let Some(f) = &self.mmap_file {
+            let _ = std::fs::remove_file(f);
+        }
+        if let Some(o) = obs.as_object_mut() {
+            o.insert("drops_before_teardown".into(), before);
+            o.insert("drops".into(), drops_snapshot());
+            o.insert("anomalies".into(), anomalies_snapshot());
+            o.insert("tracked".into(), json!(self.tracked));
+            o.insert("torn_down".into(), json!(!(hard || frozen)));
+        }
+    }
 }
